@@ -332,7 +332,14 @@ func (s *indexKVStore) getOrCreateValue(bucketID uint32, key []byte,
 			return 0, false, false, err
 		}
 		if bucket != nil {
-			s.bucketCache.Add(bucketID, bucket)
+			// NOTE: only cache the bucket if it is read from current snapshot. flush swaps the snapshot and purges the cache under
+			// the write lock, if a bucket of old snapshot is added after that, the keys which are flushed cannot be found
+			// from the cached(stale) bucket, then new ids will be generated for them.
+			s.lock.RLock()
+			if s.snapshot == snapshot {
+				s.bucketCache.Add(bucketID, bucket)
+			}
+			s.lock.RUnlock()
 		}
 	}
 	if bucket != nil {
